@@ -4868,6 +4868,20 @@ class PyCdlib:
                                                         fmode, boot_catalog_old,
                                                         **kwargs)
 
+        if isinstance(old_rec, dr.DirectoryRecord) and 'udf_new_path' not in kwargs:
+            # A file of several extents has one directory record per extent;
+            # the new name needs a record for each of them as well.
+            more_kwargs = dict(kwargs)
+            more_kwargs['continuation'] = True
+            old_part = old_rec.data_continuation
+            while old_part is not None:
+                num_bytes_to_add += self._add_hard_link_to_inode(old_part.inode,
+                                                                 old_part.get_data_length(),
+                                                                 fmode,
+                                                                 boot_catalog_old,
+                                                                 **more_kwargs)
+                old_part = old_part.data_continuation
+
         self._finish_add(0, num_bytes_to_add)
 
     def rm_hard_link(self, iso_path=None, joliet_path=None, udf_path=None):
